@@ -83,6 +83,9 @@ namespace pika {
 
             [[maybe_unused]] util::ignore_all_while_checking ignore_lock;
 
+#if defined(PIKA_VERIF)
+            PIKA_VERIF_POINT(707, data.get());    // about to lock the internal mutex (user lock still held)
+#endif
             std::unique_lock<mutex_type> l(data->mtx_);
             ::pika::detail::unlock_guard<std::unique_lock<Mutex>> unlock(lock);
 
@@ -111,6 +114,9 @@ namespace pika {
 
             [[maybe_unused]] util::ignore_all_while_checking ignore_lock;
 
+#if defined(PIKA_VERIF)
+            PIKA_VERIF_POINT(707, data.get());    // about to lock the internal mutex (user lock still held)
+#endif
             std::unique_lock<mutex_type> l(data->mtx_);
             ::pika::detail::unlock_guard<std::unique_lock<Mutex>> unlock(lock);
 
@@ -214,6 +220,9 @@ namespace pika {
 
             [[maybe_unused]] util::ignore_all_while_checking ignore_lock;
 
+#if defined(PIKA_VERIF)
+            PIKA_VERIF_POINT(707, data.get());    // about to lock the internal mutex (user lock still held)
+#endif
             std::unique_lock<mutex_type> l(data->mtx_);
             ::pika::detail::unlock_guard<Lock> unlock(lock);
 
@@ -242,6 +251,9 @@ namespace pika {
 
             [[maybe_unused]] util::ignore_all_while_checking ignore_lock;
 
+#if defined(PIKA_VERIF)
+            PIKA_VERIF_POINT(707, data.get());    // about to lock the internal mutex (user lock still held)
+#endif
             std::unique_lock<mutex_type> l(data->mtx_);
             ::pika::detail::unlock_guard<Lock> unlock(lock);
 
